@@ -1201,7 +1201,7 @@ def run_check(ctx, plats, chunk, nontrivial, rule, mc_pairs=None):
     chunks = [list(range(i, min(len(plats), i + chunk))) for i in range(0, len(plats), chunk)]
     # one TLC worker per run: the inputs and tables live in TLC registers (TLCSet) and are shared, not deep-normalised
     # values; parallelism comes from running the chunks in separate TLC processes
-    npar = max(1, min(max(2, vlib.NCPU // 2), len(chunks)))
+    npar = max(1, min(max(2, (3 * vlib.NCPU) // 4), len(chunks)))
     workers = 1
 
     def do(ci_idx):
